@@ -80,6 +80,9 @@ func envFloat(k string, d float64) float64 {
 
 func Thorough() bool { return Tier == "thorough" }
 
+// RepoDir is the goawk tree the check runs against.
+func RepoDir() string { return envStr("VERIF_REPO", "/repo") }
+
 // ---------------------------------------------------------------------------
 // Str: a string that survives JSON even when it is not valid UTF-8
 
